@@ -18,7 +18,8 @@ RULE = ("stratified + seeded random (configuration, sample) pairs inside the doc
 REQUIRED = [f"contract:NonnegMean.{t}" for t in nn.TESTS] + ["stratum:len1", "stratum:m_to_0", "stratum:m_to_u",
                                                              "stratum:m_above_u", "stratum:m_below_0",
                                                              "random_order_false", "stratum:nondyadic_runs", "stratum:long_sample", "integer_dtype_samples", "object_warmed_up_with_another_N", "object_built_with_another_u",
-            "object_used_on_another_sample_first", "calls_with_boundary_tolerances_passed_by_the_caller"]
+            "object_used_on_another_sample_first", "calls_with_boundary_tolerances_passed_by_the_caller",
+            "single_precision_samples"]
 ASSUMPTIONS = ["samples are numpy arrays of floats in [0,u] (dyadic in the boundary strata, runs of non-representable values in the nondyadic stratum); documented exclusions: finite-N SPRT with "
                "random_order=False (raises by design), Kaplan-Markov/Wald with finite N",
                "numpy/pandas are trusted"]
@@ -115,6 +116,12 @@ def run_shard(spec, rec):
         if not nn.in_domain(cfg, x):
             continue
         case = {"cfg": cfg, "x": x, "stratum": st}
+        if i % 13 == 12 and not cfg.get("int_dtype"):
+            cfg["float_dtype"] = "float32"
+            if rng.random() < 0.5:
+                cfg["t"] = rng.choice((0.3, 0.4, 0.55, 0.6)) if cfg["u"] > 0.6 else cfg["t"]   # null means that single precision cannot hold
+                if "eta" in cfg["kw"] and not cfg["t"] < cfg["kw"]["eta"] < cfg["u"]:
+                    cfg["kw"]["eta"] = (cfg["t"] + cfg["u"]) / 2
         if i % 11 == 10 and cfg["test"] in ("alpha_mart", "betting_mart", "wald_sprt"):
             # the boundary tolerances are per-call tuning parameters of these three tests: exact comparison is a legal choice
             case["test_kwargs"] = rng.choice(({"atol": 0}, {"atol": 0, "rtol": 0}, {"rtol": 0}, {"atol": 1e-12}))
@@ -138,6 +145,8 @@ def run_case(case, rec):
         rec.count("object_built_with_another_u")
     if cfg.get("reused"):
         rec.count("object_used_on_another_sample_first")
+    if cfg.get("float_dtype"):
+        rec.count("single_precision_samples")
     rec.count(f"combo:{nn.label(cfg)}")
     if any(m == 0 for m in mu):
         rec.count("regime:mu_exactly_0")
